@@ -24,4 +24,9 @@ CLAIMED['C20'] = ('DESIGN.md 4/C20', 'Symbolic execution of interp2d/interp_left
     'searchsorted/where forks enumerate every bracketing case), rolling average (all windows/modes), step-fit error '
     '(p=1,2, any sign of every mean) and the NZS 1170.5 functions with symbolic T,Z,N,R (x**0.75 encoded exactly as '
     'an algebraic root); each clause decided by z3 within the stated sizes.')
+CLAIMED['C01'] = ('DESIGN.md 4/C01', 'The real Nigam-Jennings recurrence is executed on a fully symbolic record, giving every '
+    'response sample as an exact linear form with the library\'s own double coefficients; each is compared with an '
+    'independent 80-digit exp(M dt) propagator for ALL records (error bounded relative to sum_k peak_k*|a_k|, the '
+    'well-conditioned form of the peak-relative tolerance), plus a one-step inductive query from an arbitrary '
+    'reachable state, the third-series identity and the T=0 row, over a stated (T/dt, xi, dt) grid.')
 NOT_APPLICABLE = {}
